@@ -57,6 +57,8 @@ type Sched struct {
 	MaxSteps  int
 	Actions   []Action
 	Invariant func(step int) string // evaluated at quiescent points; non-empty = violation
+	Setup     func()                // runs inside the bubble before the call under test starts
+	Teardown  func()                // runs inside the bubble after the run
 
 	mu       sync.Mutex
 	rng      *Rng
@@ -267,6 +269,12 @@ func (s *Sched) Run(t *testing.T, fn func()) {
 			simhook.PickHook = s.pick
 			simhook.PermHook = s.perm
 
+			if s.Setup != nil {
+				s.Setup()
+			}
+			if s.Teardown != nil {
+				defer s.Teardown()
+			}
 			done := make(chan struct{})
 			var fnPanic interface{}
 			go func() {
